@@ -5,12 +5,13 @@ from vlib.runner import Violation, call
 
 PID = "C19"
 RULE = ("Hypothesis-generated parameters (exponential a in (0.01,10]; Poisson mean in (0,20]; power law alpha in "
-        "[2,8]; cut-off power law alpha in [2,6], kappa in [0.1,2000]) x degrees k over the support (Python and numpy "
+        "[2,8]; cut-off power law alpha in [2,6], kappa in [0.01,2000]) x degrees k over the support (Python and numpy "
         "ints); oracle = mpmath closed forms at 40 digits (zeta, polylog) within the series-truncation tolerance "
         "derived from the code's stopping rule; non-negativity; partial sums + analytic tail = 1. Non-trivial = "
         "k >= 2 and parameter off the grid used by the suite; distinct = distinct canonical JSON")
-ASSUMPTIONS = ["tolerance for the two series-normalised laws: relative error <= 1.05*tail/normaliser + 1e-12 where tail "
-               "bounds the mass the code's stopping rule (first term < 1e-6) leaves out; 1e-12 for the closed forms"]
+ASSUMPTIONS = ["tolerance for the two series-normalised laws: relative error <= 1.05*tail/normaliser + 1e-11 where tail = the "
+               "exact sum of all series terms from the first term below 1e-6 onwards (whatever a truncation at 1e-6 may "
+               "drop, whether or not the first small term itself is kept); 1e-11 for the closed forms"]
 BUDGET = {"quick": (16, 150), "thorough": (16, 2000)}
 
 
@@ -22,7 +23,7 @@ def strategy(tier):
         st.fixed_dictionaries({"dist": st.just("poisson"), "m": st.floats(0.01, 20.0), "ks": st.lists(st.integers(0, 100), min_size=1, max_size=6), "np": st.booleans()}),
         st.fixed_dictionaries({"dist": st.just("power_law"), "alpha": st.floats(2.0, 8.0), "ks": bigk, "np": st.booleans()}),
         st.fixed_dictionaries({"dist": st.just("cutoff"), "alpha": st.floats(2.0, 6.0),
-                               "kappa": st.one_of(st.floats(0.1, 20.0), st.floats(20.0, 2000.0)), "ks": bigk, "np": st.booleans()}),
+                               "kappa": st.one_of(st.floats(0.01, 0.2), st.floats(0.1, 20.0), st.floats(20.0, 2000.0)), "ks": bigk, "np": st.booleans()}),
     )
 
 
@@ -53,8 +54,13 @@ def check(case):
         f = call("factory", power_law, case["alpha"])
         Z = mp.zeta(al)
         exact = lambda k: mp.mpf(k) ** (-al) / Z
-        K = mp.floor(mp.mpf(10) ** (6 / al))
-        rel = mp.mpf("1.05") * (K ** (1 - al) / (al - 1)) / Z + mp.mpf("1e-11")
+        # first term below the code's stopping threshold; everything from there on may be truncated
+        K0 = int(mp.ceil(mp.mpf(10) ** (6 / al)))
+        while mp.mpf(K0) ** (-al) >= mp.mpf("1e-6"):
+            K0 += 1
+        while K0 > 1 and mp.mpf(K0 - 1) ** (-al) < mp.mpf("1e-6"):
+            K0 -= 1
+        rel = mp.mpf("1.05") * mp.zeta(al, K0) / Z + mp.mpf("1e-11")
         tail = lambda M: mp.zeta(al, M + 1) / Z
     else:
         al, ka = mp.mpf(case["alpha"]), mp.mpf(case["kappa"])
@@ -62,10 +68,11 @@ def check(case):
         f = call("factory", scale_free_cut_off, case["alpha"], case["kappa"])
         Li = mp.polylog(al, z)
         exact = lambda k: mp.mpf(k) ** (-al) * mp.e ** (-mp.mpf(k) / ka) / Li
-        K = mp.floor(mp.mpf(10) ** (6 / al))
-        t1 = K ** (1 - al) / (al - 1)
-        t2 = mp.mpf("1e-6") * z / (1 - z)
-        rel = mp.mpf("1.05") * min(t1, t2) / Li + mp.mpf("1e-11")
+        K0, part = 1, mp.mpf(0)
+        while z ** K0 / mp.mpf(K0) ** al >= mp.mpf("1e-6"):
+            part += z ** K0 / mp.mpf(K0) ** al
+            K0 += 1
+        rel = mp.mpf("1.05") * (Li - part) / Li + mp.mpf("1e-11")
         tail = None
     worst = 0.0
     for k in ks:
